@@ -475,7 +475,9 @@ theorem Acc_step (q : Quirks) (s : State) (e : Event) (h : Acc s) : Acc (step q 
     simp only [step]
     split
     · exact Acc_runBatch q now c _ _ (Acc_setConn h)
-    · exact h
+    · split
+      · exact Acc_runBatch q now c _ _ (Acc_setConn h)
+      · exact h
   | timeouts now => exact Acc_iter (Acc_expireOne now) _ _ h
   | hangup c =>
     simp only [step]; split
